@@ -35,16 +35,32 @@ type stockPayload struct {
 	Note   string
 }
 
-// stockOut collects what the writer sinks received (norace: shared by tasks).
+// stockOut collects what the writer sinks received. Fixed arrays and plain
+// stores only (norace, no append/copy): if the library fails to serialise two
+// writers, the race detector must point at the library, not at this buffer.
 type stockOut struct {
-	bufs [4][]byte
+	bufs [5][1 << 17]byte
+	lens [5]int
 }
 
 //go:norace
-func (o *stockOut) write(i int, p []byte) { o.bufs[i] = append(o.bufs[i], p...) }
+func (o *stockOut) write(i int, p []byte) {
+	n := o.lens[i]
+	for j := 0; j < len(p) && n < len(o.bufs[i]); j++ {
+		o.bufs[i][n] = p[j]
+		n++
+	}
+	o.lens[i] = n
+}
 
 //go:norace
-func (o *stockOut) get(i int) []byte { return append([]byte(nil), o.bufs[i]...) }
+func (o *stockOut) get(i int) []byte {
+	out := make([]byte, o.lens[i])
+	for j := 0; j < o.lens[i]; j++ {
+		out[j] = o.bufs[i][j]
+	}
+	return out
+}
 
 type stockWriter struct {
 	o *stockOut
@@ -152,7 +168,15 @@ func runStock(rc *RunCtx) {
 	fsinkCE := &el.FileSink{Path: filepath.Join(dir, "logs-ce"), FileName: "ce.log", Format: string(cloudevents.FormatJSON), MaxBytes: 500}
 	ch := make(chan *el.Event, 2)
 	chSink, _ := channel.NewChannelSink(ch, 5*time.Millisecond)
+	// FileSinks on the special paths write to the process's standard streams; inside
+	// the simulation those are replaced by a writer that records like the others
+	simrt.SimStdout, simrt.SimStderr = &stockWriter{out, 3}, &stockWriter{out, 4}
+	defer func() { simrt.SimStdout, simrt.SimStderr = nil, nil }()
+	fstdout := &el.FileSink{Path: "/dev/stdout", FileName: "x.log"}
+	fstderr := &el.FileSink{Path: "/dev/stderr", FileName: "x.log", MaxBytes: 100}
 	nodes := map[string]el.Node{
+		"fstdout": fstdout,
+		"fstderr": fstderr,
 		"filter":  &el.Filter{Predicate: func(e *el.Event) (bool, error) { return true, nil }},
 		"filter2": &el.Filter{Predicate: func(e *el.Event) (bool, error) { return e.Payload != nil, nil }},
 		"encrypt": ef,
@@ -174,7 +198,7 @@ func runStock(rc *RunCtx) {
 		}
 	}
 	filters := []string{"filter", "filter2", "encrypt", "gated"}
-	jsonSinks := []string{"file", "w0", "w1", "chan"}
+	jsonSinks := []string{"file", "w0", "w1", "chan", "fstdout", "fstderr"}
 	ceSinks := []string{"filece", "wce", "chan"}
 	nPipes := 1 + tp.Choose(4, "npipes")
 	var pdesc []string
@@ -284,7 +308,7 @@ func runStock(rc *RunCtx) {
 			}
 		}
 	}
-	for i := 0; i < 3; i++ {
+	for i := 0; i < 5; i++ {
 		checkLines(fmt.Sprintf("writer%d", i), out.get(i))
 	}
 	for _, d := range []string{"logs", "logs-ce"} {
